@@ -42,5 +42,11 @@ rc=$?
 fi
 grep -m3 -A2 '^VIOLATION' "$T/out.txt"
 tail -1 "$T/out.txt"
-if [ $rc = 1 ]; then echo "MUTANT $(basename "$PATCH") on $ID: CAUGHT"; exit 0; fi
+record() { # keep the latest verdict per (mutant, property, tier)
+  local f=mutants/RESULTS.tsv key="$(basename "$PATCH")	$ID	$TIER"
+  touch "$f"; grep -v "^$key	" "$f" > "$f.tmp" || true
+  echo "$key	$1	$(grep -m1 -o 'class=[^ ]*' "$T/out.txt" | head -1)" >> "$f.tmp"; sort -o "$f" "$f.tmp"; rm -f "$f.tmp"
+}
+if [ $rc = 1 ]; then record CAUGHT; echo "MUTANT $(basename "$PATCH") on $ID: CAUGHT"; exit 0; fi
+record "MISSED(exit $rc)"
 echo "MUTANT $(basename "$PATCH") on $ID: MISSED (exit $rc)"; exit 1
